@@ -236,12 +236,16 @@ impl ConcreteReadableShape for Multipatch {
     fn read_shape_content<T: Read>(source: &mut T, record_size: i32) -> Result<Self, Error> {
         let reader = MultiPartShapeReader::<PointZ, T>::new(source)?;
 
-        let record_size_with_m =
-            Self::size_of_record(reader.num_points, reader.num_parts, true) as i32;
-        let record_size_without_m =
-            Self::size_of_record(reader.num_points, reader.num_parts, false) as i32;
+        let m_is_used = record_size_is(
+            record_size,
+            Self::size_of_record(reader.num_points, reader.num_parts, true),
+        );
+        let m_is_not_used = record_size_is(
+            record_size,
+            Self::size_of_record(reader.num_points, reader.num_parts, false),
+        );
 
-        if (record_size != record_size_with_m) & (record_size != record_size_without_m) {
+        if !m_is_used & !m_is_not_used {
             Err(Error::InvalidShapeRecordSize)
         } else {
             let mut patch_types = vec![PatchType::Ring; reader.num_parts as usize];
@@ -252,7 +256,7 @@ impl ConcreteReadableShape for Multipatch {
             let (bbox, patches_points) = reader
                 .read_xy()
                 .and_then(|rdr| rdr.read_zs())
-                .and_then(|rdr| rdr.read_ms_if(record_size == record_size_with_m))
+                .and_then(|rdr| rdr.read_ms_if(m_is_used))
                 .map_err(Error::IoError)
                 .map(|rdr| (rdr.bbox, rdr.parts))?;
 
